@@ -223,6 +223,11 @@ func buildAF(class string, r *rng) *astits.PacketAdaptationField {
 				HasSeamlessSplice: true, SpliceType: uint8(r.intn(16)), DTSNextAccessUnit: &astits.ClockReference{Base: cr33(r)}}}
 	case "big":
 		return &astits.PacketAdaptationField{HasTransportPrivateData: true, TransportPrivateData: r.bytes(180), TransportPrivateDataLength: 180}
+	case "huge": // an adaptation field that alone does not fit in a packet: the call must be rejected without a partial packet
+		return &astits.PacketAdaptationField{HasTransportPrivateData: true, TransportPrivateData: r.bytes(182 + r.intn(20)), TransportPrivateDataLength: 190}
+	case "huge8": // ... around and beyond what an 8-bit length can hold
+		n := r.pick(252, 253, 254, 255, 256, 300, 437, 438, 600)
+		return &astits.PacketAdaptationField{RandomAccessIndicator: r.boolean(), HasTransportPrivateData: true, TransportPrivateData: r.bytes(n), TransportPrivateDataLength: n}
 	case "bigrai": // a random access point whose adaptation field leaves no room for the PES header
 		return &astits.PacketAdaptationField{RandomAccessIndicator: true, HasPCR: true, PCR: pcr(), HasTransportPrivateData: true, TransportPrivateData: r.bytes(170), TransportPrivateDataLength: 170}
 	}
@@ -247,6 +252,8 @@ func afTotalLen(class string) int {
 		return 2 + 1 + 180
 	case "bigrai":
 		return 2 + 6 + 1 + 170
+	case "huge", "huge8":
+		return 185 // more than a packet holds (the exact size is drawn when the field is built)
 	}
 	fatal("unknown AF class %q", class)
 	return 0
